@@ -244,6 +244,20 @@ Section Render.
         (match format with Some f => 58 :: flat_map in_string f | None => [] end) ++ [c_rbrace]
     end.
 
+  (* what the lexer hands to the interpolation parser: the content of the token after its escapes are undone, i.e. the
+     text of the parts with braces doubled, but before `in_string` (backslash and double quote are escaped on top) *)
+  Definition brace_escape (c : N) : str :=
+    if c =? c_lbrace then [c_lbrace; c_lbrace] else if c =? c_rbrace then [c_rbrace; c_rbrace] else [c].
+  Definition ipart_content (p : ipart) : str :=
+    match p with
+    | IStr s => flat_map brace_escape s
+    | IExpr path format =>
+        c_lbrace :: display_ident (ids R) path ++ (match format with Some f => 58 :: f | None => [] end) ++ [c_rbrace]
+    end.
+  Definition interp_content (parts : list ipart) : str := flat_map ipart_content parts.
+  Definition interp_text (sql : bool) (parts : list ipart) : str :=
+    (if sql then 115 else 102) :: c_dquote :: flat_map ipart_text parts ++ [c_dquote].
+
   Definition literal_text (l : literal) : str :=
     match l with
     | LNull => w_null
@@ -261,7 +275,7 @@ Section Render.
     | AIdent path => display_ident (ids R) path
     | ALit l => literal_text l
     | AParam s => 36 :: s
-    | AInterp sql parts => (if sql then 115 else 102) :: c_dquote :: flat_map ipart_text parts ++ [c_dquote]
+    | AInterp sql parts => interp_text sql parts
     | AInternal s => [105;110;116;101;114;110;97;108;32] ++ s
     | APar s => write_ident_part (ids R) s
     | APath path => write_ident (ids R) path
